@@ -235,25 +235,35 @@ def check_mark_nodes(chk, rep, repo):
     detail = "expected: while nodes[i].pred != NIL: mark i; i = nodes[i].pred; then mark the terminal node"
     if len(loops) == 1:
         li = loops[0]
-        name = fn.params[1]
-        I = ("phi", li.lid, name)
-        node = lambda t: ("idx", ("attr", G, "nodes"), t)
-        cond_ok = li.cond == ("cmp", "!=", *sorted([("K", "NIL"), ("attr", node(I), "pred")], key=repr))
-        init, end = li.carried.get(name, (None, None))
-        step_ok = init == ip and end is not None and (end == ("attr", node(I), "pred")
-                                                      or (end[0] == "old" and end[1] == ("attr", node(I), "pred")))
+        nodes = ("attr", G, "nodes")
+        node = lambda t: ("idx", nodes, t)
+        NIL = ("K", "NIL")
+        head = None  # node term at the loop head, and how the walk advances
+        step_ok = False
+        for name, (init, end) in li.carried.items():
+            ph = ("phi", li.lid, name)
+            e2 = end[1] if end[0] == "old" else end
+            if init == ip and e2 == ("attr", node(ph), "pred"):
+                head, step_ok = node(ph), True  # index walk: i = nodes[i].pred
+            elif init == node(ip) and e2 == node(("attr", ph, "pred")):
+                head, step_ok = ph, True  # reference walk: node = nodes[node.pred]
+        cond_ok = head is not None and li.cond == ("cmp", "!=", *sorted([NIL, ("attr", head, "pred")], key=repr))
         inside = [e for e in w.events if e.kind == "store" and li.lid in e.loops]
-        in_ok = len(inside) == 1 and inside[0].target == ("attr", node(I), "relevant") \
+        in_ok = head is not None and len(inside) == 1 and inside[0].target == ("attr", head, "relevant") \
             and inside[0].value == ("K", "RELEVANT") and len(inside[0].guards) == 1
         afterl = [e for e in w.events if e.kind == "store" and li.lid not in e.loops and e.seq > li.last_seq]
-        after_ok = len(afterl) == 1 and afterl[0].target == ("attr", node(I), "relevant") \
+        after_ok = head is not None and len(afterl) == 1 and afterl[0].target == ("attr", head, "relevant") \
             and afterl[0].value == ("K", "RELEVANT") and not afterl[0].guards
+        # the flag must be written before the walk moves on
+        if in_ok:
+            moves = [e for e in w.events if e.kind == "bind" and li.lid in e.loops and e.seq < inside[0].seq]
+            in_ok = not moves
         ok = cond_ok and step_ok and in_ok and after_ok
         if cond_ok and step_ok and in_ok and not after_ok:
             detail = "the terminal node of the path (the prototype) is not marked"
         elif cond_ok and step_ok and not in_ok:
-            detail = "nodes on the predecessor chain are not marked RELEVANT"
-        elif cond_ok and not step_ok:
+            detail = "nodes on the predecessor chain are not marked RELEVANT (before the walk advances)"
+        elif not step_ok:
             detail = "the walk does not advance to the predecessor"
         others = [e for e in w.events if e.kind == "store" and e not in inside and e not in afterl]
         for e in others:
@@ -275,9 +285,11 @@ def check_prune(chk, rep, repo):
             j = ("iterproj", dom, li.lid, (0,))
             n = ("idx", ("attr", G, "nodes"), j)
             outer = w.loops[li.loops[-1]] if li.loops else None
-            guard = (("cmp", "!=", *sorted([("K", "IRRELEVANT"), ("attr", n, "relevant")], key=repr)), True)
-            guard2 = (("cmp", "==", *sorted([("K", "RELEVANT"), ("attr", n, "relevant")], key=repr)), True)
-            g_ok = apps[0].guards[-1:] in ((guard,), (guard2,))
+            from ..ir import facts
+            guard = ("cmp", "!=", *sorted([("K", "IRRELEVANT"), ("attr", n, "relevant")], key=repr))
+            guard2 = ("cmp", "==", *sorted([("K", "RELEVANT"), ("attr", n, "relevant")], key=repr))
+            own = facts(apps[0].guards)[len(facts(li.guards)):]
+            g_ok = own in ((guard,), (guard2,))
             srcs = []
             for e in apps:
                 a = e.args[0] if e.args else None
